@@ -6,7 +6,12 @@
 (* Abs : a block is  q  - the sequence of query/responses (ids),           *)
 (*                   a  - the address event counts, a sequence of DISTINCT *)
 (*                        keys with a count each (cnt),                    *)
-(*                   m  - the sequence of malformed messages.              *)
+(*                   m  - the sequence of malformed messages,              *)
+(*                   p  - the block parameters it is filled under (an id:  *)
+(*                        tick rate, maximal item count, storage hints);   *)
+(*                        they decide when the block is full, which        *)
+(*                        members of a record are stored and how record    *)
+(*                        times are kept, so they are part of its value.   *)
 (*       A block obtained from another one in any manner holds the same    *)
 (*       q, a/cnt, m and reads like a freshly built block: read_generic_qr *)
 (*       / _mm return the items in order, read_generic_aec returns every   *)
@@ -23,7 +28,12 @@
 (*         "move_singular" - the move constructor leaves the iterator      *)
 (*                           value-initialised,                            *)
 (*         "keep_cursor"   - assignment keeps the destination's index      *)
-(*                           cursors.                                      *)
+(*                           cursors,                                      *)
+(*         "keep_params"   - assignment keeps the destination's block      *)
+(*                           parameters (both state the same index),       *)
+(*         "move_no_params"- a moved block does not take its parameters    *)
+(*                           along (constructed: default ones, assigned:   *)
+(*                           the destination's).                           *)
 (***************************************************************************)
 EXTENDS Integers, Sequences, FiniteSets, TLC
 
@@ -34,7 +44,13 @@ Hows  == {"cctor", "mctor", "cassign", "massign", "rctor", "rassign"}
 Ctor(how) == how \in {"cctor", "mctor", "rctor"}
 
 (* ------------------------------- Abs ----------------------------------- *)
-EmptyVal == [q |-> <<>>, a |-> <<>>, cnt |-> <<>>, m |-> <<>>]
+EmptyValP(p) == [q |-> <<>>, a |-> <<>>, cnt |-> <<>>, m |-> <<>>, p |-> p]
+EmptyVal == EmptyValP(0)
+
+(* parameter sets: 0 = default (10^6 ticks/s, 10000 items, all hints), 1 = 1000 ticks/s, 2 items, response-rcode *)
+(* not stored, 2 = 10^6 ticks/s, 3 items, query-opcode not stored                                                *)
+ParamIds == {0, 1, 2}
+MaxItems(p) == CASE p = 1 -> 2 [] p = 2 -> 3 [] OTHER -> 10000
 
 HasKey(val, v) == \E i \in 1..Len(val.a) : val.a[i] = v
 KeyPos(val, v) == CHOOSE i \in 1..Len(val.a) : val.a[i] = v
@@ -44,6 +60,14 @@ AbsAddItem(val, k, v) ==
       [] k = "mm"  -> [val EXCEPT !.m = Append(@, v)]
       [] k = "aec" -> IF HasKey(val, v) THEN [val EXCEPT !.cnt[KeyPos(val, v)] = @ + 1]
                       ELSE [val EXCEPT !.a = Append(@, v), !.cnt = Append(@, 1)]
+
+(* which optional members of query/response v are stored under the hints of parameter set p (the driver gives every *)
+(* record a query-opcode and the odd ones a response-rcode)                                                           *)
+RcExp(v, p) == (v % 2 = 1) /\ p # 1
+OcExp(v, p) == p # 2
+
+(* what add_*() returns: the block is full under ITS parameters *)
+AbsFull(val) == Len(val.q) >= MaxItems(val.p) \/ Len(val.a) >= MaxItems(val.p) \/ Len(val.m) >= MaxItems(val.p)
 
 Count(val, k) == CASE k = "qr" -> Len(val.q) [] k = "mm" -> Len(val.m) [] k = "aec" -> Len(val.a)
 Counts(val) == <<Len(val.q), Len(val.a), Len(val.m)>>
@@ -88,14 +112,19 @@ ImplAddItem(heap, t, k, v) ==
     [heap EXCEPT ![t].val = AbsAddItem(@, k, v),
                  ![t].gen = IF k = "aec" /\ ~HasKey(heap[t].val, v) THEN @ + 1 ELSE @]
 
-ImplClear(heap, t)   == [heap EXCEPT ![t].val = EmptyVal, ![t].gen = @ + 1]
+ImplClear(heap, t)   == [heap EXCEPT ![t].val = EmptyValP(@.p), ![t].gen = @ + 1]     \* clear() keeps the parameters
+ImplSetP(heap, t, p) == [heap EXCEPT ![t].val.p = p]                                  \* set_block_parameters on an empty block
 ImplDestroy(heap, t) == [heap EXCEPT ![t].alive = FALSE, ![t].val = EmptyVal, ![t].gen = @ + 1]
 
 (* dst becomes a copy of src (all six manners; the reader manners build the block from its serialisation) *)
 ImplCopy(heap, s, d, how) ==
     LET g == heap[d].gen + 1
         own == [own |-> d, gen |-> g, pos |-> 1]
-    IN [heap EXCEPT ![d] = [alive |-> TRUE, gen |-> g, val |-> heap[s].val,
+        dp == IF heap[d].alive THEN heap[d].val.p ELSE 0
+        np == IF VBug = "keep_params" /\ ~Ctor(how) THEN dp
+              ELSE IF VBug = "move_no_params" /\ how \in {"mctor", "massign"} THEN dp
+              ELSE heap[s].val.p
+    IN [heap EXCEPT ![d] = [alive |-> TRUE, gen |-> g, val |-> [heap[s].val EXCEPT !.p = np],
                             cq |-> IF VBug = "memberwise" THEN heap[s].cq
                                    ELSE IF VBug = "keep_cursor" /\ ~Ctor(how) THEN heap[d].cq ELSE 0,
                             cm |-> IF VBug = "memberwise" THEN heap[s].cm
